@@ -1045,7 +1045,7 @@ package lang
 //@   init $nRuns = 0
 //@   after Evaluator.evalRules: $nRuns = $nRuns + 1
 //@   loop 0 invariant[C02] one-pass-per-element-so-far: $nRuns == rangeindex + 1
-//@   exit[C02] the-rules-are-run-once-per-element-of-an-array-root-and-once-for-any-other-root: result == nil && old(e.root) != nil ==> $nRuns == (old(e.root.Value.Tag) == ValueArray ? len(old(e.root.Value.Array)) : 1)
+//@   exit[C02] the-rules-are-run-once-per-element-of-an-array-root-and-once-for-any-other-root: result == nil && old(e.root) != nil && len(patternRules) > 0 ==> $nRuns == (old(e.root.Value.Tag) == ValueArray ? len(old(e.root.Value.Array)) : 1)
 
 // C14 (-r E behaves as BEGINFILE { $ = E }): the selection is what that assignment would store -- a
 // scalar or null is a fresh copy detached from the value it was looked up in, a function is an error.
